@@ -417,6 +417,9 @@ func pipeSFlowFlowSample(r *rand.Rand) []byte {
 		}
 		h.raw(ip)
 		h.rnd(r, l4+r.Intn(40))
+		if r.Intn(6) == 0 { // a sampler cuts wherever it cuts: an undissectable header leaves its record out, the datagram is still published (F19a)
+			h.b = h.b[:r.Intn(len(h.b)+1)]
+		}
 		hl := len(h.b)
 		for len(h.b)%4 != 0 {
 			h.u8(0)
